@@ -238,6 +238,7 @@ def generate_symbol(
     macro_definitions: MacroDefinitions,
     file_info: Token,
 ) -> GenNodes:
+    resolver.current_scope.deferred_symbols.add(node.symbol)
     return [SymbolNode(node.symbol, node.value, resolver)]
 
 
@@ -320,6 +321,7 @@ def generate_for(
         resolver.append_internal_scope()
         resolver.use_next_scope()
         code.append(ScopeNode(resolver))
+        resolver.current_scope.deferred_symbols.add(node.symbol)
         code.append(
             SymbolNode(
                 node.symbol,
@@ -399,6 +401,7 @@ def generate_macro_application(
                 macro_scope.add_symbol(arg, argument_value)
         except SymbolNotDefined:
             # defer the resolve to the emit part.
+            macro_scope.deferred_symbols.add(arg)
             code.append(SymbolNode(arg, value, resolver, evaluate_in_parent_scope=True))
     code += _code_gen(macro_code.body, resolver, macro_definitions)
     code.append(PopScopeNode(resolver))
